@@ -50,7 +50,19 @@ def userinfoOf (s : String) : Option (Option Userinfo) :=
       → `direct`
       → `via <scheme hex> <host:port hex> <user hex|-> <password hex|->`   the proxy URL handed on (with the
                                     userinfo of the matching --credentials entry)
+  logrecord <none|short-url|url|headers|body|errors> <status>
+      → `nothing` | `record` | `record+headers`   what the request logger of a module in that mode writes for
+                                    an exchange with that status (logRecord on an exchange that HAS header fields)
 -/
+def logModeOf : String → Option LogMode
+  | "none" => some .none
+  | "short-url" => some .shortURL
+  | "url" => some .url
+  | "headers" => some .headers
+  | "body" => some .body
+  | "errors" => some .errors
+  | _ => none
+
 def handle : List String → String
   | ["describe", fmt, flag, raws] =>
     match formatOf fmt, flagKind flag, bytesList raws with
@@ -100,6 +112,13 @@ def handle : List String → String
       | .data _ => "data"
       | .file _ => "file"
       | .error e => s!"err {hexOfBytes e}"
+    | _, _ => "bad-op"
+  | ["logrecord", mode, status] =>
+    match logModeOf mode, status.toNat? with
+    | some m, some st =>
+      match logRecord m ⟨[71], [47], [47], st, [104], [104], [], [], [], []⟩ with
+      | none => "nothing"
+      | some b => if b.reqHeaders = [] && b.resHeaders = [] then "record" else "record+headers"
     | _, _ => "bad-op"
   | ["absent", secret, text] =>
     match bytesOfHex secret, bytesOfHex text with
